@@ -173,3 +173,9 @@ func Snapshot(u uintptr) any        { return nil }
 func Restore(u uintptr, s any) bool { return false }
 func MutexHeld(m any) bool          { return false }
 func MutexReaders(m any) int        { return 0 }
+
+// RawAddr returns the integer a foreign pointer was made from ((*T)(unsafe.Pointer(uintptr))).
+func RawAddr(p *byte) uintptr { return uintptr(unsafe.Pointer(p)) }
+
+// PtrToken returns the address token of a real pointer.
+func PtrToken(p *byte) uintptr { return uintptr(unsafe.Pointer(p)) }
